@@ -369,7 +369,11 @@ struct Transport::Impl
             {
               return; // M-3: don't grow a buffer no one will drain
             }
-            if (bufIt->second->data.size() + data.size() > config.maxSyncReceiveBuffer)
+            // Overflow is terminal: once a chunk has been dropped, later chunks
+            // must be dropped too even if they would fit again, otherwise the
+            // reader drains bytes from beyond the gap before it sees the error.
+            if (bufIt->second->overflow ||
+                bufIt->second->data.size() + data.size() > config.maxSyncReceiveBuffer)
             {
               // Overflow: surface a distinct error to the parked waiter instead
               // of silently dropping (which would only fail at the caller's
